@@ -7,9 +7,24 @@ SESS_ASSUME = [
     'bounded model: at most 2 outbound calls, 2 inbound calls, 2 Close invocations per behaviour',
 ]
 
+def _rdm_merge(cov, mcov):
+    cov.update(mcov)
+    cov['traces_validated_against_impl'] += mcov['redialm_traces']
+    cov['evaluations'] += mcov['redialm_scenarios']
+    cov['distinct_nontrivial'] += mcov['redialm_nontrivial']
+
+def _rdm_calls(c):
+    # schedule families with calls racing a loss, a redial round or a Close() on a redial-enabled session
+    return 'call' in (c.get('during') or []) or c.get('kind') == 'closerace'
+
+def _rdm_close(c):
+    return c.get('closed')
+
 def c02(prop, tier, verdict):
     cov, _ = eng_sess.run(prop, tier, verdict)
-    return 'model_checking', cov, SESS_ASSUME
+    # calls on a session that redials: every call completes exactly once whatever the schedule inside a loss (spec/RedialM.tla)
+    _rdm_merge(cov, redialm(prop, tier, verdict, 200, only=_rdm_calls))
+    return 'model_checking', cov, SESS_ASSUME + [REDIALM_ASSUME]
 
 def c08(prop, tier, verdict):
     cov, _ = eng_sess.run(prop, tier, verdict)
@@ -20,7 +35,9 @@ def c08(prop, tier, verdict):
     cov['evaluations'] += hcov['hub_scenarios']
     cov['distinct_nontrivial'] += hcov['hub_distinct_nontrivial']
     cov['samples'].append({'hub_history': hcov['hub_sample']})
-    return 'model_checking', cov, SESS_ASSUME + ['peer level: every index history of spec/Hub.tla ends with Peer.Close() while the handlers that are still running run on (15 ms observation window for a Close that returns too early)']
+    # Close() on a session that redials, racing with a loss, a redial round and new calls (spec/RedialM.tla)
+    _rdm_merge(cov, redialm(prop, tier, verdict, 150, only=_rdm_close))
+    return 'model_checking', cov, SESS_ASSUME + [REDIALM_ASSUME, 'peer level: every index history of spec/Hub.tla ends with Peer.Close() while the handlers that are still running run on (15 ms observation window for a Close that returns too early)']
 
 def c07(prop, tier, verdict):
     cov, _ = eng_sess.run(prop, tier, verdict)
@@ -41,7 +58,9 @@ def c07(prop, tier, verdict):
     cov['evaluations'] += pcov['evaluations']
     cov['distinct_nontrivial'] += pcov['distinct_nontrivial']
     cov['samples'].append({'peer_history': pcov['samples'][-1]})
-    return 'model_checking', cov, SESS_ASSUME + ['peer level: 2 connections, histories of at most 5 operations over the three establishment paths (ServeConn, accept loop on an in-memory listener, Dial over loopback TCP to the accept loop), both hook verdicts on both ends, Close on either end, cut, Peer.Close on either peer, calls; quick tier replays a seeded sample of 700 of the exported transitions', 'session index: 3 sessions, 2 user ids, histories of at most 7 operations, one operation at a time (quiescent probes)']
+    # lifecycle and index of a session that redials: a local Close() ends it for good, at quiescence it is alive or ended (spec/RedialM.tla)
+    _rdm_merge(cov, redialm(prop, tier, verdict, 200))
+    return 'model_checking', cov, SESS_ASSUME + [REDIALM_ASSUME, 'peer level: 2 connections, histories of at most 5 operations over the three establishment paths (ServeConn, accept loop on an in-memory listener, Dial over loopback TCP to the accept loop), both hook verdicts on both ends, Close on either end, cut, Peer.Close on either peer, calls; quick tier replays a seeded sample of 700 of the exported transitions', 'session index: 3 sessions, 2 user ids, histories of at most 7 operations, one operation at a time (quiescent probes)']
 
 DISP_ASSUME = [
     'one message per scenario between two real peers over the in-memory connection; concurrent arrivals are covered by the sess engine',
@@ -105,24 +124,27 @@ def c09(prop, tier, verdict):
                               consts={'MaxOps': '7', 'Budgets': '{0, 2, 3, 99}'}, extra_cfg='VIEW view', min_count=500, label='redial')
     cov['redial_traces'] = rcov['traces_validated_against_impl']
     cov['traces_validated_against_impl'] += rcov['traces_validated_against_impl']
-    return 'model_checking', cov, DISP_ASSUME + ['placement trees: 0-2 global-left, 0-2 global-right, 0-3 nested groups with 0-1 plugin, 1-2 sibling handlers with 0-1 plugin, optionally one global plugin appended after the routes exist (its hooks on route chains are unconstrained)']
+    return 'model_checking', cov, DISP_ASSUME + ['placement trees: 0-2 global-left, 0-2 global-right, 0-3 nested groups with 0-1 plugin, 1-2 sibling handlers with 0-1 plugin, optionally one global plugin appended after the routes exist (its hooks on route chains are unconstrained)',
+                                  'origin of the global lists: literal arguments, a slice with spare capacity, a plugin removed by name before the routes exist (left or right list, either end), two plugins appended at once (left or right) x the placements above with two sibling handlers that differ in their handler-level plugins; both routes are called, in either order; a Fatalf of the framework during such a configuration is recorded as an event and rejected']
 
 def c16(prop, tier, verdict):
     def cl(line, s):
-        return 'auth:%s/first=%s,pipe=%s,timing=%s,hook=%s-%s%s' % (line.get('ev'), s.get('first'), s.get('pipe'), s.get('timing'), s.get('hookpos'), s.get('hookverdict'), ',neighbour' if s.get('neighbour') == 'good' else '')
-    cov, _ = eng_generic.run(prop, tier, verdict, 'Accept', 'auth', 'PAuth', cl, mc_cfg='Accept_mc.cfg', min_count=1000, repeats=3 if tier == 'thorough' else 1,
+        return 'auth:%s/first=%s,pipe=%s,timing=%s,hook=%s-%s%s' % (line.get('ev'), s.get('first'), s.get('pipe'), s.get('timing'), s.get('hookpos'), s.get('hookverdict'), (',neighbour' if s.get('neighbour') == 'good' else '') + (',cut=%s' % s.get('cut') if s.get('timing') == 'split' else '') + (',neighbour=before' if s.get('neighbour') == 'before' else ''))
+    cov, _ = eng_generic.run(prop, tier, verdict, 'Accept', 'auth', 'PAuth', cl, mc_cfg='Accept_mc.cfg', min_count=2000, repeats=3 if tier == 'thorough' else 1,
                              nontrivial=lambda s: s['first'] != 'authgood' or s['pipe'] != 'none')
     return 'model_checking', cov, ['both establishment paths over in-memory connections with the shipped auth checker plugin: peer.ServeConn and the accept loop behind ListenAndServe (hook H2 on an in-memory listener); real TCP/TLS/QUIC listeners are not driven',
-                                   'client behaviours: 16 first-message classes (string and byte tokens, checker panic, checker SetID) x 4 pipelining classes x 2 timings x 5 placements/verdicts of another accept hook x 2 paths, plus for byte tokens a neighbouring connection that authenticates with a valid token of the same length between receive and compare (GOMAXPROCS 1 during that scenario): 1440 scenarios, all replayed']
+                                   'client behaviours: 16 first-message classes (string and byte tokens, checker panic, checker SetID) x 4 pipelining classes x 2 timings x 5 placements/verdicts of another accept hook x 2 paths, plus for byte tokens a neighbouring connection that authenticates with a valid token of the same length between receive and compare (GOMAXPROCS 1 during that scenario): 1440 scenarios, all replayed',
+                                   'timing class split: the first frame delivered in two pieces (cut inside the size field / inside the header / right after the header / after the public part of the credential) with a pause in which the scripted client watches for any response; no checker verdict, hook or handler may be recorded before the frame is complete; also with a neighbouring connection that authenticated with a valid byte token of the same length just before and left (its credential is what the pooled receive buffer still holds): 1200 scenarios more, all replayed']
 
 def c17(prop, tier, verdict):
     def cl(line, s):
-        return 'secure:%s/kind=%s,marker=%s,accept=%s,enforce=%s,keys=%s,codec=%s%s' % (line.get('ev'), s.get('kind'), s.get('marker'), s.get('accept'), s.get('enforce'), s.get('keys'), s.get('codec'), ',hret=okstatus' if s.get('hret') == 'okstatus' else '')
-    cov, _ = eng_generic.run(prop, tier, verdict, 'Secure', 'secure', 'PSecure', cl, mc_cfg='Secure_mc.cfg', min_count=700, repeats=3 if tier == 'thorough' else 1,
+        return 'secure:%s/kind=%s,marker=%s,accept=%s,enforce=%s,keys=%s,codec=%s%s' % (line.get('ev'), s.get('kind'), s.get('marker'), s.get('accept'), s.get('enforce'), s.get('keys'), s.get('codec'), (',hret=okstatus' if s.get('hret') == 'okstatus' else '') + (',nbr=%s/%s' % (s.get('nbr'), s.get('nret')) if s.get('nbr', 'none') != 'none' else ''))
+    cov, _ = eng_generic.run(prop, tier, verdict, 'Secure', 'secure', 'PSecure', cl, mc_cfg='Secure_mc.cfg', min_count=1000, repeats=3 if tier == 'thorough' else 1,
                              nontrivial=lambda s: s['marker'] != 'none' or s['accept'] != 'absent' or s['enforce'])
     return 'model_checking', cov, ['matrix complete: kind x secure marker x accept-secure x enforced secure reply x equal/different keys x key length 16/24/32 x codec json/protobuf x 4 body classes',
                                    'clear-text detection searches the captured bytes for the 31-character random tag (and the head of the padding); the cipher itself is not analysed',
-                                   'the combination secure request + accept-secure=false is left unconstrained (statement and plugin disagree)']
+                                   'the combination secure request + accept-secure=false is left unconstrained (statement and plugin disagree)',
+                                   'neighbouring plugin: a second plugin of both peers before / after the secure plugin or on the serving routes, all of whose read and write hooks report success with nil or with a status object of code 0 (key length 16, short body); the oracle is the same as without it']
 
 def c18(prop, tier, verdict):
     import vlib
@@ -160,11 +182,11 @@ def c18(prop, tier, verdict):
 
 def c19(prop, tier, verdict):
     def cl(line, s):
-        return 'proxy:%s/kind=%s,method=%s,codec=%s,reqmeta=%s,replymeta=%s,failure=%s' % (line.get('ev'), s.get('kind'), s.get('method'), s.get('codec'), s.get('reqmeta'), s.get('replymeta'), s.get('failure'))
+        return 'proxy:%s/kind=%s,method=%s,codec=%s,reqmeta=%s,replymeta=%s,failure=%s' % (line.get('ev'), s.get('kind'), s.get('method'), s.get('codec'), s.get('reqmeta'), s.get('replymeta'), s.get('failure')) + (',earlier=%s' % s.get('earlier') if s.get('earlier', 'none') != 'none' else '')
     cov, _ = eng_generic.run(prop, tier, verdict, 'Proxy', 'proxy', 'PProxy', cl, mc_cfg='Proxy_mc.cfg', min_count=200, repeats=3 if tier == 'thorough' else 1,
-                             nontrivial=lambda s: s['reqmeta'] != 'none' or s['replymeta'] != 'none' or s['failure'] != 'none' or s['method'] != 'echo')
+                             nontrivial=lambda s: s['reqmeta'] != 'none' or s['replymeta'] != 'none' or s['failure'] != 'none' or s['method'] != 'echo' or s.get('earlier', 'none') != 'none')
     return 'exploration', cov, ['three real peers (caller, proxy with the shipped plugin, backend) over in-memory connections, plus the same caller connected directly to the backend as the reference',
-                                'request space of spec/Proxy.tla: kind x method (served / failing / missing at the backend) x codec json/protobuf x request metadata classes x reply metadata classes x body classes x backend failure (down before, cut during)',
+                                'request space of spec/Proxy.tla: kind x method (served / failing / missing at the backend) x codec json/protobuf x request metadata classes x reply metadata classes x body classes x backend failure (down before, cut during) x what happened earlier on the forwarder session of the proxy (nothing, a message written under a context deadline that has since passed, an exchange under a context age that was then switched off; healthy short-body cases only)',
                                 'metamorphic oracle: proxied outcome = direct outcome; every case executed in both tiers']
 
 def c15(prop, tier, verdict):
@@ -179,8 +201,8 @@ def c15(prop, tier, verdict):
         return 'hist:%s' % what
     cov, _ = eng_generic.run(prop, tier, verdict, 'History', 'hist', 'PHistory', cl, consts={'MaxLen': '3' if tier == 'thorough' else '2'}, min_count=150,
                              nontrivial=lambda s: len(s.get('ops', [])) > 1)
-    return 'model_checking', cov, ['alphabet of 15 whole-process operations (direct and proxied calls and pushes, backend down / cut, closed sessions, unknown route, undecodable body, handler panic, auth reject, overload reject, secure key mismatch, PreReceive on a PreSession kept beyond the preparing phase with the message recycled, an accept hook that sends and returns a status object of its own); every history of length <= 2 (quick) / 3 (thorough) in ONE process, so a mutated shared status is seen by everything after it',
-                                   'after every operation the verif accessor snapshots every package-level status; before and after every history four failing probes are repeated and their (code, msg, cause) compared']
+    return 'model_checking', cov, ['alphabet of 20 whole-process operations (direct and proxied calls and pushes, backend down / cut, closed sessions, unknown route, undecodable body, handler panic, auth reject, overload reject, secure key mismatch, PreReceive on a PreSession kept beyond the preparing phase with the message recycled, an accept hook that sends and returns a status object of its own, and five calls whose REPLY WRITE fails with something other than connection-closed: result that cannot be encoded, known / unknown route under a context age that has run out, known / unknown route on a connection whose writes fail while it looks healthy); every history of length <= 2 (quick) / 3 (thorough) in ONE process, so a mutated shared status is seen by everything after it',
+                                   'after every operation the verif accessor snapshots every package-level status; before and after every history four failing probes are repeated and their (code, msg, cause) compared; what the caller of an unencodable / aged operation observes is compared between its repetitions as well']
 
 def c20(prop, tier, verdict):
     def sig(line):
@@ -190,7 +212,8 @@ def c20(prop, tier, verdict):
                           nontrivial=lambda c: len(c.get('muts') or []) > 0, seeds=2 if tier == 'thorough' else 1)
     return 'exploration', cov, ['pooled kinds: socket.Message (also obtained through GetMessage with up to 3 settings, one of which may panic), utils.Args, pooled socket.Socket, xfer.XferPipe, handler contexts (through a live session)',
                                 'every sequence of at most 2 (quick) / 3 (thorough) mutators of the previous user, then one operation of the next user; recycling is made deterministic with GOMAXPROCS(1) and checked by pointer identity',
-                                'differential oracle: observation vector / packed bytes of the recycled object equal those of a fresh one']
+                                'differential oracle: observation vector / packed bytes of the recycled object equal those of a fresh one',
+                                'handler contexts: previous uses include calls / pushes that ended not OK (handler error, not found, undecodable argument, unsupported frame type) on either side; the next user sends a call or a push, and the observation includes what the sending side\'s pre/post write hooks see through their WriteCtx (a pooled context for a push); the context pool is emptied (two collections) before the recycled and before the reference run']
 
 def c06(prop, tier, verdict):
     import vlib
@@ -200,12 +223,13 @@ def c06(prop, tier, verdict):
     def sig(line):
         c = line.get('case', {})
         what = 'escaped' if line.get('escaped') else '+'.join(k for k in ('alive', 'boundok', 'stateok', 'controlok') if not line.get(k)) or 'err'
-        return 'hostile:%s:%s%s:limit=%s:%s' % (c.get('proto'), c.get('class'), ('=' + c.get('lenval')) if c.get('class') == 'lenfield' else '', c.get('limit'), what)
+        return 'hostile:%s:%s%s%s:limit=%s:%s' % (c.get('proto'), c.get('class'), ('=' + c.get('lenval')) if c.get('class') == 'lenfield' else '', ('@' + c.get('sess')) if c.get('sess') else '', c.get('limit'), what)
     cov, _ = eng_data.run(prop, tier, verdict, 'Hostile', {}, sig, 200, seeds=3 if tier == 'thorough' else 1)
     cov['receiver_automaton'] = 'spec/HostileRecv.tla: %d distinct states, BoundedAlloc and NoWedge hold' % ra['distinct']
     return 'fault_enumeration', cov, ['protocols raw, json, pb, thrift-binary, http; read limits 4 KiB and 64 KiB (process-global, set per case)',
                                       'input classes: random, zeros, every truncation of a valid frame, valid prefix + garbage, valid frame + garbage, length field at 7 boundary values, frames announcing 512 MiB / limit+1 with a few bytes following',
-                                      'allocation is observed as the TotalAlloc delta around one input with 2 MiB of slack; a process crash is reported through the driver crash path; a control session on the same peer must answer before and after every case']
+                                      'allocation is observed as the TotalAlloc delta around one input with 2 MiB of slack; a process crash is reported through the driver crash path; a control session on the same peer must answer before and after every case',
+                                      'state of the attacked session (Hostile.tla sess): idle, one CALL of the attacked side pending (never answered), or such a CALL pending and a graceful Close() parked waiting for it, crossed with a representative subset of input classes (three truncations, random bytes, plain EOF, three bad length fields, a well-formed frame of an unsupported type); once the input is exhausted the call must have completed and Close() must have returned (10 s bound)']
 
 def c10(prop, tier, verdict):
     def cl(line, s):
@@ -213,7 +237,9 @@ def c10(prop, tier, verdict):
         if ev == 'MapCase':
             return 'router:map:%s:%s%s' % (line.get('mapper'), 'panic' if line.get('panicked') else ('table' if line.get('expected') else 'nondeterministic'), ':' + line.get('name') if line.get('expected') else '')
         if ev == 'Request':
-            return 'router:request:%s:ran=%s' % (line.get('ns'), '+'.join(line.get('ran') or []) or 'none')
+            # live scenarios: when the configuration was installed relative to the session the request was made on
+            live = ':live:when=%s,sess=%s' % (line.get('when'), line.get('sess')) if line.get('sess') else ''
+            return 'router:request:%s:ran=%s%s' % (line.get('ns'), '+'.join(line.get('ran') or []) or 'none', live)
         return 'router:%s' % ev
     def sel(allc, rnd, tier):
         regs = [c for c in allc if c['kind'] == 'reg']
@@ -225,7 +251,46 @@ def c10(prop, tier, verdict):
                              select=sel, nontrivial=lambda s: s['kind'] != 'map' or s.get('expected'), check_trace_count=False)
     return 'model_checking', cov, ['mapper: every identifier string of length <= 4 (quick) / 5 (thorough) over {A,B,a,b,_,1} x 4 prefixes x both mappers for totality and determinism, the 16 documented table rows for equality (the general rule is not transcribed)',
                                    'dispatch: subsets of a fixed handler inventory (3 controller structs, 2 functions, one CALL and one PUSH handler mapping to the same name) x 3 group prefixes x both mappers x unknown handlers on/off; every returned name, 8 near misses of it and unregistered names requested as CALL and as PUSH',
-                                   'name conflicts are observed as the exit status of a child process']
+                                   'name conflicts are observed as the exit status of a child process',
+                                   'live configuration: unknown handlers installed before / after / replaced after / never relative to the first session, any part of 3 route sets registered after it, 2 group prefixes, both mappers (320 scenarios, all replayed); rounds of requests on the old session before and after the late configuration and on a new session; configuration steps and requests alternate, they do not run concurrently']
+
+def redialm(prop, tier, verdict, sample_quick, only=None):
+    """Step-level redial model (spec/RedialM.tla) + schedule families forced with hold points (spec/RedialSched.tla,
+    driver redialm) judged by spec/PRedialM.tla.  Returns coverage entries to merge."""
+    import vlib
+    wd = vlib.scratch('rdm_' + prop)
+    cfg = 'RedialM_mc2.cfg' if tier == 'thorough' else 'RedialM_mc.cfg'
+    r = vlib.tlc_must_hold('RedialM', cfg, workdir=wd, workers=8, timeout=3000)
+    known = []
+    # the model still knows the repaired defects: with one repair switched off TLC must refute the named invariant
+    for fix, inv in (('CloseLock', 'NoHangG'), ('LostClose', 'CloseEffectiveG'), ('StaleEnd', 'AliveOrEndedG'), ('StaleReader', 'AliveOrEndedG')):
+        viol, _, rr = vlib.counterexample('RedialM', 'RedialM_asis_%s.cfg' % fix, var='status', workdir=wd, workers=4, timeout=900)
+        if not viol:
+            raise vlib.Broken('RedialM with Fix%s = FALSE no longer violates %s: the model has lost the defect' % (fix, inv))
+        known.append('%s -> %s refuted' % (fix, inv))
+    vlib.cleanup(wd)
+    def cl(line, s):
+        ev = line.get('ev')
+        what = ev
+        if ev == 'QProbe':
+            what += ':%s%s%s%s' % (line.get('status'), ':notified' if line.get('notified') else '', ':indexed' if line.get('indexed') else '', ':count=%s' % line.get('count'))
+        if ev in ('CallDone', 'FreshCall'):
+            what += ':code=%s' % line.get('code')
+        return 'redialm:%s/kind=%s,loss=%s,park=%s,wpark=%s,during=%s,after=%s' % (what, s.get('kind'), s.get('loss'), s.get('park'), s.get('wpark'), '+'.join(s.get('during') or []) or '-', s.get('after'))
+    def sel(allc, rnd, tier):
+        pool = [c for c in allc if only is None or only(c)]
+        if tier == 'thorough' or len(pool) <= sample_quick:
+            return pool
+        return rnd.sample(pool, sample_quick)
+    cov, _ = eng_generic.run(prop, tier, verdict, 'RedialSched', 'redialm', 'PRedialM', cl, mc_cfg='RedialSched_mc.cfg', min_count=800, select=sel,
+                             nontrivial=lambda s: s.get('park') != 'none' or s.get('wpark') != 'none' or len(s.get('during') or []) > 0,
+                             repeats=2 if tier == 'thorough' else 1, label='redialm')
+    return {'redialm_model': 'spec/RedialM.tla with %s: %d distinct states, %d generated; invariants TypeOK DoneAtMostOnce OkWasWritten and, outside the open observations O1-O3, NoHang CloseReturns NoStuckThread AliveOrEnded SurvivesLoss CloseEffective HookOnce HookIffEnded' % (cfg, r['distinct'], r['generated']),
+            'redialm_asis': known,
+            'redialm_scenarios': cov['evaluations'], 'redialm_traces': cov['traces_validated_against_impl'], 'redialm_nontrivial': cov['distinct_nontrivial'],
+            'redialm_rejected': cov.get('rejected', 0), 'redialm_sample': cov['samples'][-1]}
+
+REDIALM_ASSUME = 'redial machinery at step level: spec/RedialM.tla (reader per connection generation, callers, Close(), redial round under the session lock) is model-checked exhaustively (1 call x 3 generations x 2 losses in the quick tier, 2 calls in the thorough tier); the real code is driven through the schedule families of spec/RedialSched.tla (the loss-handling goroutine parked at each action boundary, callers parked at call.stored / write.refused, calls / Close() / server back / rejecting dial hook issued meanwhile) over loopback TCP and judged at quiescence by spec/PRedialM.tla; schedules that the hold points cannot force (the open observations O1-O3 of RedialM.tla) are not replayed'
 
 def c13(prop, tier, verdict):
     def cl(line, s):
@@ -237,7 +302,12 @@ def c13(prop, tier, verdict):
         return 'redial:%s%s%s/budget=%s' % (line.get('ev'), ':expect=' + str(line.get('expect')) if line.get('expect') else '', extra, (s.get('steps') or [{}])[0].get('budget'))
     cov, _ = eng_generic.run(prop, tier, verdict, 'Redial', 'redial', 'PRedial', cl, consts={'MaxOps': '8' if tier == 'thorough' else '7', 'Budgets': '{0, 2, 3, 99}'},
                              mc_cfg='Redial_mc.cfg', extra_cfg='VIEW view', min_count=500, nontrivial=lambda s: any(x['op'] in ('cut', 'down') for x in s.get('steps', [])))
-    return 'model_checking', cov, ['real loopback TCP through a forwarder that can refuse connections and cut existing ones; redial interval 3 ms; budgets 0, 2 and unlimited',
+    mcov = redialm(prop, tier, verdict, 400)
+    cov.update(mcov)
+    cov['traces_validated_against_impl'] += mcov['redialm_traces']
+    cov['evaluations'] += mcov['redialm_scenarios']
+    cov['distinct_nontrivial'] += mcov['redialm_nontrivial']
+    return 'model_checking', cov, [REDIALM_ASSUME, 'real loopback TCP through a forwarder that can refuse connections and cut existing ones; redial interval 3 ms; budgets 0, 2 and unlimited',
                                    'fault sequences = every transition of spec/Redial.tla (histories of at most 7 / 8 operations: call, in-flight call, cut, server down/up, SetID, quiescence wait), expectations only where the statement fixes the outcome (calls racing with a redial and calls on an ended session with the server back are left open)',
                                    'which goroutine (reader or writer) detects a loss is left to the run: a loss during an idle period is detected by the reader, a call issued right after a fault may detect it in its write']
 
